@@ -63,6 +63,11 @@ def configs(tier, seed):
             ls = [(st + i) % 5 for i in range(3)]
             out.append({"kind": "three", "l": ls, "types": list(tp), "M": [1 + (st + i) % 2 for i in range(3)]})
     out.append({"kind": "convergence", "l": [2, 3], "types": ["spherical", "cartesian"], "M": [1, 1]})
+    # a shell whose norm_cont was set by the caller (legal: it is a plain attribute): both halves must use it
+    out.append({"kind": "two", "l": [1, 2], "types": ["cartesian", "spherical"], "M": [2, 1], "normscale": 1.3})
+    # one evaluation call over the whole grid (753571 points x 35 functions, 2.6e7 values) against the same grid in slabs
+    out.append({"kind": "bigcall", "l": [0, 1, 2, 3, 4], "types": ["cartesian", "spherical", "cartesian", "spherical", "cartesian"],
+                "M": [1, 1, 1, 1, 1]})
     return out
 
 
@@ -130,6 +135,38 @@ def integrate(g, n, gam, h, gam2=None, trf=None):
     return S, Mo, T, rho, tp, calls, rho2
 
 
+def bigcall(o, g, n, gam):
+    """evaluate_basis / evaluate_density called ONCE for the whole grid must give what slab-wise calls give, and the
+    density must integrate to tr(gamma S)."""
+    from gbasis.evals.density import evaluate_density
+    from gbasis.evals.eval import evaluate_basis
+    from gbasis.integrals.overlap import overlap_integral
+
+    h = 0.2
+    ax, N = grid(h)
+    w1 = np.full(N, h)
+    w1[0] = w1[-1] = h / 2
+    X, Y, Z = np.meshgrid(ax, ax, ax, indexing="ij")
+    pts = np.stack([X.ravel(), Y.ravel(), Z.ravel()], axis=1)
+    w = (w1[:, None, None] * w1[None, :, None] * w1[None, None, :]).ravel()
+    rho = evaluate_density(gam, g, pts)
+    P = evaluate_basis(g, pts)
+    o.call(2)
+    o.notes["bigcall_values"] = int(P.size)
+    step = 50000
+    rs = np.concatenate([evaluate_density(gam, g, pts[i:i + step]) for i in range(0, len(pts), step)])
+    Ps = np.concatenate([evaluate_basis(g, pts[i:i + step]) for i in range(0, len(pts), step)], axis=1)
+    o.call(2 * (len(pts) // step + 1))
+    o.cmp("evaluate_density: one call for %d points == slab-wise calls" % len(pts), rho, rs, 1e-12, float(np.max(np.abs(rs))),
+          key="bigcall-density")
+    o.cmp("evaluate_basis: one call == slab-wise calls", P, Ps, 1e-12, float(np.max(np.abs(Ps))), key="bigcall-basis")
+    Sa = overlap_integral(g)
+    o.call()
+    o.cmp("grid density (single call) == tr(gamma S)", np.array(float(np.sum(rho * w))), np.array(np.sum(gam * Sa)), TOL,
+          float(np.sum(np.abs(gam) * np.abs(Sa))), key="grid-density-bigcall")
+    return o
+
+
 def evaluate(cfg):
     gb()
     from gbasis.integrals.kinetic_energy import kinetic_energy_integral
@@ -139,9 +176,13 @@ def evaluate(cfg):
     o = Obs(cfg)
     shells = build(cfg)
     g = [gshell(s) for s in shells]
+    if cfg.get("normscale"):
+        g[0].norm_cont = g[0].norm_cont * cfg["normscale"]
     n = nbasis(shells)
     X = np.array([hvec("gridX%d" % r, n, -1, 1) for r in range(n)])
     gam = X @ X.T
+    if cfg["kind"] == "bigcall":
+        return bigcall(o, g, n, gam)
     Sa = overlap_integral(g)
     Ta = kinetic_energy_integral(g)
     Ma = moment_integral(g, np.zeros(3), np.array(ORD2))
